@@ -178,3 +178,19 @@ type Flags struct {
 func DrawFlags(t *rapid.T) Flags {
 	return Flags{Keep: rapid.Bool().Draw(t, "keep"), Reverse: rapid.Bool().Draw(t, "reverse"), Ignore: rapid.Bool().Draw(t, "ignore")}
 }
+
+// AnyGridWide adds grids with fixed point magnitudes above 2^53 and lat/lon axis order.
+func AnyGridWide(t *rapid.T) GridSpec {
+	switch rapid.IntRange(0, 19).Draw(t, "gridKind") {
+	case 0, 1, 2:
+		return RD
+	case 3, 4, 5:
+		return WebMercator
+	case 6:
+		return GridSpec{Kind: "builtin", Name: "UPSArcticWGS84Quad"}
+	case 7:
+		return GridSpec{Kind: "builtin", Name: "EuropeanETRS89_LAEAQuad"}
+	default:
+		return Synthetic(t)
+	}
+}
